@@ -26,6 +26,8 @@ SO = os.path.join(HERE, "build", "faultfs.so")
 OPS = {"write": 1, "rename": 2, "sendfile": 3, "copy_file_range": 4, "open": 5, "unlink": 6, "fsync": 7, "close": 8}
 NAMES = ["out.dat", "ABS", "a b.dat", "é.dat", "a#b.dat", "a?b.dat", "a;b.dat", "c:d.dat", "sub/x.dat", "./rel.dat",
          "r%20x.dat", "50%.dat", "a&b=c.dat", "~x.dat",
+         # names near the file system's limit of 255 BYTES: 80 three-byte characters, 250 ASCII letters
+         "\u6f22" * 80 + ".dat", "a" * 246 + ".dat",
          # the destination name is a symbolic link to a regular file in another directory (always pre-existing)
          "LINK"]
 # how the name is handed over: the str itself, a pathlib.Path, the bytes file-system encoding (all accepted by open())
